@@ -307,7 +307,7 @@ def valExpr (env : ValEnv) : Expr → Expr × Bool
     match env.get v with
     | some x => let (a', c) := setVal a x; (.var a' v, c)
     | none => (.var a v, false)
-  | .num a n => let (a', c) := setVal a (.fe n); (.num a' n, c)
+  | .num a n => let (a', c) := setVal a (.fe (n % env.prime)); (.num a' n, c)     -- a literal is read modulo the prime (after the `fix:`)
   | .call a name args => let (args', c) := valExprs env args false; (.call a name args', c)
   | .arr a vals => let (vals', c) := valExprs env vals false; (.arr a vals', c)
   | .acc a v access => let (access', c) := valAccs env access false; (.acc a v access', c)
